@@ -305,12 +305,26 @@ def run_check(prop, variant):
     mod = importlib.import_module('sv.props.%s' % prop.lower())
     rep = report.Reporter(prop, 'quick', 0, quiet=True)
     t0 = time.time()
+    import signal
+
+    class _Timeout(Exception):
+        pass
+
+    def _alarm(sig, frm):
+        raise _Timeout()
+    old_h = signal.signal(signal.SIGALRM, _alarm)
+    signal.alarm(int(os.environ.get('SELFTEST_JOB_TIMEOUT', '180')))
     try:
         mod.run(variant, rep)
+    except _Timeout:
+        return {'status': 'timeout', 'msg': 'no verdict within the per-variant time limit', 'wall': time.time() - t0}
     except AnalysisError as e:
         return {'status': 'analysis-error', 'msg': str(e)[:200], 'wall': time.time() - t0}
     except Exception as e:
         return {'status': 'exception', 'msg': '%s: %s' % (type(e).__name__, str(e)[:200]), 'wall': time.time() - t0}
+    finally:
+        signal.alarm(0)
+        signal.signal(signal.SIGALRM, old_h)
     known = set(k['key'] for k in report.load_known().get('open', []))
     viol = [i for i in rep.instances if i.verdict == report.VIOLATED and i.key not in known]
     und = [i for i in rep.instances if i.verdict == report.UNDECIDED]
